@@ -202,6 +202,24 @@ def const_case(rec, seedt, tier):
         rec.violation("zero-shift-not-identity", "timeshift(x, 0) != x")
 
 
+def single_sample_case(rec, seedt):
+    """A one-sample record: every shift returns that sample (end values are held)."""
+    from speckit import dsp
+    rng = gen.rng_for(*seedt)
+    v = float(rng.standard_normal())
+    s = float(rng.choice([0.0, 0.3, -2.0, 7.5, 1e6]))
+    order = int(rng.choice(ORDERS))
+    desc = {"kind": "single-sample", "seed": list(seedt), "s": s, "order": order}
+    rec.case(desc, nontrivial=False)
+    rec.count("single_sample_cases")
+    try:
+        out = dsp.timeshift(np.array([v]), s, order)
+        if float(np.asarray(out).ravel()[0]) != v or np.asarray(out).size != 1:
+            rec.violation("single-sample-record", f"timeshift([{v}], {s}) = {out!r}")
+    except Exception as e:
+        rec.violation("timeshift-raises", f"one-sample record: {type(e).__name__}: {e}")
+
+
 def varying_case(rec, seedt, tier):
     from speckit import dsp
     rng = gen.rng_for(*seedt)
@@ -399,6 +417,8 @@ def run_shard(params, rec):
         varying_case(rec, [seed, sh, "var", i], tier)
         if i % 3 == 0:
             df_case(rec, [seed, sh, "df", i])
+        if i % 10 == 0:
+            single_sample_case(rec, [seed, sh, "one", i])
 
 
 def replay(case, rec):
@@ -407,6 +427,8 @@ def replay(case, rec):
         taps_case(rec, case["seed"])
     elif k == "const":
         const_case(rec, case["seed"], case.get("tier", "quick"))
+    elif k == "single-sample":
+        single_sample_case(rec, case["seed"])
     elif k == "varying":
         varying_case(rec, case["seed"], case.get("tier", "quick"))
     else:
